@@ -186,7 +186,7 @@ func n3lEpisode(t *testing.T, r *kit.Run, ep int, maxN int, steps int) {
 		}
 		replay := map[string]interface{}{"router": R, "magic": magic, "tracked_before": before, "tracked_after": after, "call_ok": rec.Ok, "call_err": rec.Err, "headers": descs}
 		if after == nil {
-			r.Violation(R+":tracked-record-vanished", "consensus record unreadable after the call", replay)
+			viol(r, R+":tracked-record-vanished", "consensus record unreadable after the call", replay)
 			return
 		}
 		if !changed {
@@ -232,7 +232,7 @@ func n3lEpisode(t *testing.T, r *kit.Run, ep int, maxN int, steps int) {
 				key = R + ":change-without-m-distinct-signatures"
 			}
 		}
-		r.Violation(key, fmt.Sprintf("tracked consensus moved %+v -> %+v without a justifying header", *before, *after), replay)
+		viol(r, key, fmt.Sprintf("tracked consensus moved %+v -> %+v without a justifying header", *before, *after), replay)
 		return
 	}
 }
